@@ -296,8 +296,20 @@ func (c *channel) receiveSession(ctx context.Context) (*Session, error) {
 	state := c.State()
 
 	switch state {
-	case SessionStateFinished:
-		return nil, fmt.Errorf("receive session: cannot do in the %v state", state)
+	case SessionStateFinished, SessionStateFailed:
+		// The receiver may have applied the terminal session before this call had the chance
+		// to wait for it: the envelope it queued is still handed over (the caller closes the
+		// transport on it), instead of being reported as an error.
+		select {
+		case s, ok := <-c.inSesChan:
+			if ok {
+				return s, nil
+			}
+		default:
+		}
+		if state == SessionStateFinished {
+			return nil, fmt.Errorf("receive session: cannot do in the %v state", state)
+		}
 	case SessionStateEstablished:
 		select {
 		case <-ctx.Done():
